@@ -2,8 +2,10 @@
   c15_server.py tcp <port>   -> server.start_tcp("127.0.0.1", port)
   c15_server.py stdio        -> server.start_io()  (sys.stdin / sys.stdout)
 Reports on stderr, one line each, flushed:  "H" per message handed to protocol.handle_message,
+"T" per completed @thread handler of the notification "t/slow" (30 ms each, ONE pool worker, so frames sent
+back to back leave a backlog of queued handlers at the disconnect),
 "RETURNED stop=<0|1> pool=<0|1>" when the start_* call returns, "RAISED <type>" when it raises."""
-import logging, sys
+import logging, sys, time
 logging.disable(logging.CRITICAL)
 from pygls.lsp.server import LanguageServer
 
@@ -23,6 +25,16 @@ def counting(message):
 
 
 server.protocol.handle_message = counting
+
+
+@server.thread()
+@server.feature("t/slow")
+def slow(params):
+    time.sleep(0.03)
+    log("T")
+
+
+server._max_workers = 1              # (LanguageServer(max_workers=..) does not reach JsonRPCServer on this HEAD)
 pool = server.thread_pool            # created up front, so that shutdown() has a pool to shut down
 
 
